@@ -112,6 +112,7 @@ partial def decExpr (j : Json) : Except String (Expr Float) := do
     | _ => throw "num"
   | "str" => do let s ← (arg 1).getStr?; pure (.str s)
   | "col" => do let p ← strList (arg 1); pure (.col p)
+  | "selc" => do let t ← (arg 1).getStr?; pure (.selc t)
   | "and" => do pure (.and (← decExpr (arg 1)) (← decExpr (arg 2)))
   | "or" => do pure (.or (← decExpr (arg 1)) (← decExpr (arg 2)))
   | "not" => do pure (.not (← decExpr (arg 1)))
@@ -154,6 +155,7 @@ partial def decFrom (j : Json) : Except String (From Float) := do
   match tag with
   | "table" => do pure (.table (← strList (arg 1)) (← (arg 2).getStr?) (← (arg 3).getStr?))
   | "derived" => do pure (.derived (← decQuery (arg 1)) (← (arg 2).getStr?))
+  | "tablesel" => do pure (.tableSel (← (arg 1).getStr?) (← (arg 2).getStr?) (← (arg 3).getStr?))
   | "join" => do
     let jt := arg 1
     let b (k : String) : Except String Bool := do (← jt.getObjVal? k).getBool?
